@@ -1,9 +1,18 @@
 #!/bin/bash
 # Build the native replay binary against /repo's current tree with the repo's own toolchain (1.79), offline.
-cd /verif/replay || exit 1
-cp /repo/Cargo.lock Cargo.lock
-export CARGO_TARGET_DIR=/verif/.cache/replay-target CARGO_NET_OFFLINE=true
-cargo +1.79.0 build --offline > /verif/.cache/replay-build.log 2>&1
+# Scratch runs against another tree (seeded changes, robustness test): VERIF_REPO=<tree> VERIF_REPLAY_TARGET=<dir> build a copy of the
+# replay crate whose path dependencies point into that tree, with its own target dir; /repo's binary is never touched by them.
+REPO=${VERIF_REPO:-/repo}
+TGT=${VERIF_REPLAY_TARGET:-/verif/.cache/replay-target}
+SRC=/verif/replay
+if [ "$REPO" != "/repo" ]; then
+  SRC=$TGT/crate; mkdir -p $SRC; rm -rf $SRC/src; cp -r /verif/replay/src $SRC/src
+  sed "s#\"/repo/#\"$REPO/#g" /verif/replay/Cargo.toml > $SRC/Cargo.toml
+fi
+cd $SRC || exit 1
+cp $REPO/Cargo.lock Cargo.lock
+export CARGO_TARGET_DIR=$TGT CARGO_NET_OFFLINE=true
+cargo +1.79.0 build --offline > $TGT/../replay-build-$(basename $TGT).log 2>&1
 rc=$?
-if [ $rc -ne 0 ]; then echo "replay build FAILED"; grep -E "^error" -A12 /verif/.cache/replay-build.log | head -60; exit 1; fi
+if [ $rc -ne 0 ]; then echo "replay build FAILED"; grep -E "^error" -A12 $TGT/../replay-build-$(basename $TGT).log | head -60; exit 1; fi
 echo "replay: built"
